@@ -261,7 +261,7 @@ func c18Constructed(c *hx.Ctx) {
 			}
 		}()
 		var parts []string
-		for _, id := range []packet.ID{0, 1, 2, 3, 65535} {
+		for _, id := range []packet.ID{0, 1, 2, 3, 77, 65535} {
 			parts = append(parts, fmt.Sprintf("%d=%s", id, hx.PktText(st.Lookup(id))))
 		}
 		var all []string
@@ -287,6 +287,23 @@ func c18Constructed(c *hx.Ctx) {
 		lp, _ := ms.LookupPacket(session.Incoming, 0)
 		ap, _ := ms.AllPackets(session.Incoming)
 		sOK := hx.PktText(lp) == hx.PktText(ref.Lookup(0)) && len(ap) == len(ref.All())
+		// what happens AFTER construction must not depend on how the store was filled: one more save lists last, a reset empties
+		extra := &packet.Pubrel{ID: 77}
+		built.Save(extra)
+		ref.Save(extra)
+		a2, b2 := view(built), view(ref)
+		built.Reset()
+		ref.Reset()
+		a3 := view(built)
+		ms2 := &session.MemorySession{Counter: session.NewIDCounter(), Incoming: session.NewPacketStoreWithPackets(l), Outgoing: session.NewPacketStoreWithPackets(l)}
+		_ = ms2.Reset()
+		in2, _ := ms2.AllPackets(session.Incoming)
+		out2, _ := ms2.AllPackets(session.Outgoing)
+		if a2 != b2 || a3 != view(ref) || len(in2) != 0 || len(out2) != 0 {
+			bad++
+			c.Emit("direct store_map constructed=%d list=%s FAIL after construction: save of pubrel:77 gives %s (Save path: %s); after Reset the constructed store answers %s (must be empty); a session reset leaves %d incoming and %d outgoing packets",
+				i, strings.Join(lt, "/"), strings.ReplaceAll(a2, " ", "_"), strings.ReplaceAll(b2, " ", "_"), strings.ReplaceAll(a3, " ", "_"), len(in2), len(out2))
+		}
 		if a != b || !sOK {
 			bad++
 			c.Emit("direct store_map constructed=%d list=%s FAIL NewPacketStoreWithPackets answers %s ; a store filled by Save answers %s ; session view consistent=%v", i, strings.Join(lt, "/"), strings.ReplaceAll(a, " ", "_"), strings.ReplaceAll(b, " ", "_"), sOK)
@@ -353,7 +370,7 @@ func runC18(c *hx.Ctx) {
 		if probe {
 			// after the history: observe everything
 			for _, d := range []session.Direction{session.Incoming, session.Outgoing} {
-				for _, id := range []packet.ID{1, 2, 3} {
+				for _, id := range []packet.ID{0, 1, 2, 3} {
 					o := sopT{kind: 'L', dir: d, id: id}
 					ot = append(ot, o.text())
 					rt = append(rt, applySop(s, o))
@@ -397,6 +414,11 @@ func runC18(c *hx.Ctx) {
 	c.Stat("alphabet", len(al))
 	// all 14 types, ids around the boundaries, length-2 histories over the rich alphabet
 	rich := c18Alphabet([]packet.ID{1, 65535}, true)
+	// id 0 is a key like any other (a QoS 0 PUBLISH carries it): saved, looked up, deleted, listed
+	for _, d := range []session.Direction{session.Incoming, session.Outgoing} {
+		rich = append(rich, sopT{kind: 'S', dir: d, pkt: &packet.Publish{ID: 0, Message: packet.Message{Topic: "z", Payload: []byte{9}, QOS: 0}}},
+			sopT{kind: 'L', dir: d, id: 0}, sopT{kind: 'D', dir: d, id: 0})
+	}
 	before := n
 	for _, a := range rich {
 		for _, b := range rich {
